@@ -39,7 +39,8 @@ LEVEL = "exploration"
 RULE = (
     "one base problem (classical+numeric+durative, quantifier variable) x all assignments of "
     "<= L names from U-NAME (17 adversarial identifiers) to 15 renameable items; level 3 uses the 9 "
-    "collision-relevant names; every assignment UP itself accepts is written with both writers; a second PDDL+ "
+    "collision-relevant names; every assignment UP itself accepts is written with both writers; a keyword sweep (every keyword of "
+    "both languages in four spellings as the name of one type / object / fluent / action / parameter); a second PDDL+ "
     "base (2 fluents, action, process, event) x all assignments of <= 2 of 11 names, PDDL writer; "
     "non-trivial = at least one item had to be renamed by a writer"
 )
@@ -83,6 +84,7 @@ def _assignments(level):
 def shards(tier, seed):
     out = [{"level": 0, "hist": True}]
     out += [{"level": 1, "pp": j, "of": 8} for j in range(8)]
+    out += [{"level": 1, "kw": j, "of": 12} for j in range(12)]
     for level in _levels(tier):
         n = sum(1 for _ in _assignments(level))
         k = {0: 1, 1: 4, 2: 64, 3: 320}[level]
@@ -95,6 +97,11 @@ def run_shard(shard, tier, seed):
     acc = Acc()
     if shard.get("hist"):
         run_histories(acc)
+        return acc
+    if "kw" in shard:
+        for i, assign in enumerate(keyword_assignments()):
+            if i % shard["of"] == shard["kw"]:
+                check_case(assign, acc)
         return acc
     if "pp" in shard:
         for i, assign in enumerate(pp_assignments()):
@@ -285,6 +292,26 @@ def check_case(assign, acc):
     acc.outcome("pddl-mangled=%d anml-mangled=%d" % (mangled_p, mangled_a))
     if len(assign) <= 1:
         acc.sample({"assign": lab})
+
+
+# ------------------------------------------------------------------------------ keyword sweep
+KW_ITEMS = [("type", "T"), ("object", "o1"), ("fluent", "b"), ("action", "a1"), ("param", ("a3", "x"))]
+
+
+def keyword_assignments():
+    """every keyword of either target language (the writer modules' own tables), in its own spelling and
+    in lower / upper / capitalised form, as the name of one item of each kind"""
+    import unified_planning.io.anml_writer as aw
+
+    kws = set(aw.ANML_KEYWORDS)
+    for t in ("GENERAL_PDDL_KEYWORDS", "TEMPORAL_PDDL_KEYWORDS", "PDDL3_KEYWORDS", "PDDL_PLUS_KEYWORDS", "CONTINGENT_PDDL_KEYWORDS"):
+        kws |= set(io.pristine(t))
+    out = []
+    for kw in sorted(kws):
+        for name in sorted({kw, kw.lower(), kw.upper(), kw.capitalize()}):
+            for it in KW_ITEMS:
+                out.append(((it, name),))
+    return out
 
 
 # ------------------------------------------------------------------------------ PDDL+ family
